@@ -277,6 +277,11 @@ def task_option_parse(pr, repo):
     C14.task_parse(pr, repo)
 
 
+def task_topup_labels(pr, repo):
+    # completing a conformation identifies residue positions by chain AND number (C08-TU over a universe with two chains)
+    C08.task_topup(pr, repo)
+
+
 def run(pr, repo):
     pr.level = 'other'
     pr.explanation = ('deductive core (VC + frame census) plus bounded relabelling monitor; level "other" because the insertion-code '
@@ -288,7 +293,7 @@ def run(pr, repo):
                  # bonds and disulfide flags are decided by elements and distance only - residue labels are symbolic there
                  (task_bond_labels, ()), (task_bond_path_labels, ()), (task_pair_order_labels, ()), (task_intrinsic, ()),
                  # options that name residues are relabelled with the structure: negative numbers, any chain character
-                 (task_option_parse, ())])
+                 (task_option_parse, ()), (task_topup_labels, ())])
     for f, allowed in READERS.items():
         frames.clause(pr, repo, 'readers of .%s are the declared ones' % f, f, 'readers', allowed)
     pr.assumptions += ['atom order (changed by relabelling through the sort key) only permutes commutative sums: A-REAL',
